@@ -34,6 +34,11 @@ AddToken == /\ Can
             /\ ntok' = ntok + 1
             /\ faults' = Append(faults, [f |-> "add", at |-> ntok])
             /\ UNCHANGED <<shape0, shape>>
+(* a surplus value on a line of its own after the value line (e.g. two files concatenated) *)
+AddLine == /\ Can
+           /\ ntok' = ntok + 1
+           /\ faults' = Append(faults, [f |-> "addline", at |-> ntok])
+           /\ UNCHANGED <<shape0, shape>>
 Bump(a, d) == /\ Can /\ shape[a] + d >= 0
               /\ shape' = [shape EXCEPT ![a] = @ + d]
               /\ faults' = Append(faults, [f |-> "bump", at |-> a - 1, by |-> d])
@@ -47,7 +52,7 @@ AddAxis(l) == /\ Can
               /\ faults' = Append(faults, [f |-> "addaxis", len |-> l])
               /\ UNCHANGED <<shape0, ntok>>
 
-Next == DropToken \/ AddToken
+Next == DropToken \/ AddToken \/ AddLine
         \/ (\E a \in 1..Len(shape) : Bump(a, 1) \/ Bump(a, -1) \/ DropAxis(a))
         \/ (\E l \in {1, 2} : AddAxis(l))
 Spec == Init /\ [][Next]_vars
@@ -59,7 +64,7 @@ MustAccept == Elements(shape) = ntok
 (* (and an undamaged file is read back with its shape)                                          *)
 IntactAccepted == faults = <<>> => MustAccept
 SingleTokenFaultRejected ==
-    (Len(faults) = 1 /\ faults[1].f \in {"drop", "add"}) => ~MustAccept
+    (Len(faults) = 1 /\ faults[1].f \in {"drop", "add", "addline"}) => ~MustAccept
 
 Emit == PrintT("REPLAY " \o ToJson([family |-> "text", kind |-> "damage", shape0 |-> shape0, shape |-> shape,
                                     ntok |-> ntok, faults |-> faults, accept |-> MustAccept]))
